@@ -47,6 +47,9 @@ pub struct Stats {
     pub samples: Vec<Value>,
     pub excluded_known: u64,
     pub unjudged: u64,
+    /// non-trivial cases of an exhaustive enumeration, distinct by construction (each index is a
+    /// different case), counted instead of fingerprinted when the space is too large for a set
+    pub nontrivial_by_construction: u64,
     frozen: bool,
 }
 impl Stats {
@@ -101,6 +104,7 @@ impl Stats {
         }
         self.excluded_known += o.excluded_known;
         self.unjudged += o.unjudged;
+        self.nontrivial_by_construction += o.nontrivial_by_construction;
     }
 }
 
@@ -172,7 +176,7 @@ impl Ctx {
     pub fn family_done(&mut self, name: &str, st: Stats, extra: Value) {
         let mut v = json!({
             "evaluations": st.evaluations,
-            "distinct_nontrivial": st.nontrivial.len(),
+            "distinct_nontrivial": st.nontrivial.len() as u64 + st.nontrivial_by_construction,
             "labels": st.labels,
         });
         if st.excluded_known > 0 {
@@ -256,7 +260,7 @@ pub fn finish(ctx: Ctx) -> i32 {
     }
     let mut coverage = json!({
         "evaluations": ctx.stats.evaluations,
-        "distinct_nontrivial": ctx.stats.nontrivial.len(),
+        "distinct_nontrivial": ctx.stats.nontrivial.len() as u64 + ctx.stats.nontrivial_by_construction,
         "rule": ctx.rule,
         "samples": samples,
         "labels": ctx.stats.labels,
@@ -308,7 +312,7 @@ pub fn finish(ctx: Ctx) -> i32 {
         ctx.tier.name(),
         ctx.seed,
         ctx.stats.evaluations,
-        ctx.stats.nontrivial.len(),
+        ctx.stats.nontrivial.len() as u64 + ctx.stats.nontrivial_by_construction,
         ctx.violations.len(),
         wall
     );
